@@ -13,7 +13,10 @@ RULE = ("core: seeded read matrices (1..6 reads, 2..6 columns, alleles 0/1, qual
         "segments, dips next to peaks, reads of varying length) so that the sqrt check-pointing keeps only every "
         "2nd/3rd/4th backward column and re-computes the others from wide and narrow ones), priors uniform / 1/3 / "
         "dyadic / unnormalised-skewed, recombination costs from {0,1,3,10,20,30}; single individuals, trios, quartets "
-        "(two children); plus the hand-made matrices of tests/test_genotyping.py; small streams for the value dimensions: qualities "
+        "(two children), three-generation pedigrees (grandparents -> parent -> child; with a sibling in the thorough "
+        "tier) with the relationships registered top-down / bottom-up / mixed and the individuals indexed in any order "
+        "(the specification's partition structure comes from the pedigree definition: h2p of the model, a recursion over "
+        "the parents that does not depend on the registration order); plus the hand-made matrices of tests/test_genotyping.py; small streams for the value dimensions: qualities "
         "1, 2, 40..300 (incl. the >= 256 code path), recombination costs up to 1000, hard (zero) priors, 7-8 active reads, "
         "pedigree roles in every index order (child not last, father not first), positions=None vs explicit positions, the "
         "empty read set, 25-30 columns (check-point stride 5), and coverage 9..13 (2^k bipartitions, beyond batch sizes "
@@ -29,7 +32,7 @@ RULE = ("core: seeded read matrices (1..6 reads, 2..6 columns, alleles 0/1, qual
         "child process is a violation (core:crash, instance = replay), and (L2) with the faithful model fb_run of the scaled, projected, "
         "check-pointed forward-backward pass. CLI: `whatshap genotype` on synthetic reference/VCF/BAM data (single "
         "sample; trio with PED; 3-4 unrelated samples with --sample selecting every position subset (first, middle, "
-        "last, pairs, all); trio plus unrelated extra VCF columns before/after/inside the family with --ped "
+        "last, pairs, all); a three-generation family whose PED file lists the grandchild first; trio plus unrelated extra VCF columns before/after/inside the family with --ped "
         "--use-ped-samples; one or two chromosomes with --chromosome subsets; quartets; PED with and without --use-ped-samples; "
         "random sample names (roles and column order independent of names), --sample options in any order, one BAM or "
         "one per sample, 1-2 read groups per sample, paired reads, SNV and indel/MNP variants, --only-snvs (records "
@@ -293,12 +296,12 @@ def gen_core(ctx):
     plan.append(("tiny-single", dict(nind=1, trios=(), max_reads=3, max_cols=3), ctx.n(20, 200), True))
     plan.append(("tiny-trio", dict(nind=3, trios=trio, max_reads=2, max_cols=2, quals=[10, 20, 30], prior_mode="uniform"),
                  ctx.n(3, 24), True))
-    plan.append(("single", dict(nind=1, trios=(), max_reads=6, max_cols=6), ctx.n(100, 1500), False))
+    plan.append(("single", dict(nind=1, trios=(), max_reads=6, max_cols=6), ctx.n(80, 1500), False))
     plan.append(("single-uncovered", dict(nind=1, trios=(), max_reads=5, max_cols=6, uncovered=True), ctx.n(20, 300), False))
     plan.append(("single-long", dict(nind=1, trios=(), max_reads=3, max_cols=10, uncovered=True), ctx.n(14, 200), False))
     plan.append(("trio-small", dict(nind=3, trios=trio, max_reads=4, max_cols=4), ctx.n(12, 300), False))
     plan.append(("trio-small-nice", dict(nind=3, trios=trio, max_reads=4, max_cols=4, quals=nice["quals"],
-                                         prior_mode="nice"), ctx.n(30, 400), False))
+                                         prior_mode="nice"), ctx.n(24, 400), False))
     plan.append(("trio", dict(nind=3, trios=trio, max_reads=6, max_cols=6, quals=nice["quals"], prior_mode="nice"),
                  ctx.n(6, 120), False))
     plan.append(("trio-long", dict(nind=3, trios=trio, max_reads=2, max_cols=9, uncovered=True, quals=nice["quals"],
@@ -354,7 +357,7 @@ def gen_core(ctx):
         out.append(("single-stride5", G.make_profile_instance(rng, nind=1, trios=(), min_cols=25, max_cols=30, max_reads=10,
                                                               levels=(0, 1, 1, 2, 3)), False))
     # long matrices (9-20 columns) with non-uniform coverage profiles: check-pointing with re-computation
-    for _ in range(ctx.n(30, 400)):
+    for _ in range(ctx.n(24, 400)):
         out.append(("single-profile", G.make_profile_instance(rng, nind=1, trios=()), False))
     for _ in range(ctx.n(3, 40)):
         out.append(("trio-profile", G.permute_individuals(rng, G.make_profile_instance(
